@@ -32,5 +32,13 @@ Lemma check_case_obs c : check_case c = true ->
 Proof.
   unfold check_case. cbv zeta.
   destruct (env_run id_oracle _ (c_script c)) as [[oc m] obs]. cbn [snd].
-  rewrite !andb_true_iff. intros [[_ H] _]. apply (list_eqb_eq tobs_eqb tobs_eqb_eq). exact H.
+  rewrite !andb_true_iff. intros [[[_ H] _] _]. apply (list_eqb_eq tobs_eqb tobs_eqb_eq). exact H.
+Qed.
+
+Lemma check_case_cond c : check_case c = true ->
+  Proofs3.alias_okb (c_log2 c) (all_pages (pre_table (c_log2 c) (c_pre c))) = c_cond c.
+Proof.
+  unfold check_case. cbv zeta.
+  destruct (env_run id_oracle _ (c_script c)) as [[oc m] obs].
+  rewrite !andb_true_iff. intros [[_ H] _]. apply Bool.eqb_prop. exact H.
 Qed.
